@@ -1,1 +1,2 @@
 -- root of the proof library: one module per property (theorems only) + helper lemmas
+import Proofs.C04
